@@ -55,6 +55,17 @@ theorem anc_congr {l l' : L} (hp : ∀ b, par l' b = par l b) {a b : Nat} (h : A
   | refl => exact Anc.refl _
   | step hq _ ih => exact Anc.step ((hp _).trans hq) ih
 
+/-- a proper ancestor has a child on the way to the descendant -/
+theorem anc_child {l : L} {a b : Nat} (h : Anc l a b) (hne : a ≠ b) : ∃ c, Anc l c b ∧ par l c = some a := by
+  induction h with
+  | refl => exact absurd rfl hne
+  | step hp hap ih =>
+    rename_i b p
+    by_cases e : a = p
+    · subst e; exact ⟨b, Anc.refl _, hp⟩
+    · obtain ⟨c, h1, h2⟩ := ih e
+      exact ⟨c, Anc.step hp h1, h2⟩
+
 namespace TreeInv
 variable {l : L}
 
